@@ -190,17 +190,17 @@ func typeNameIn(t *TType, file string) string {
 // ---- schema generation
 
 type tgenOpts struct {
-	MaxStructs    int
-	MaxFields     int
-	MaxDepth      int
-	BigIDs        bool // allow ids up to 32767
-	ManyFields    bool // occasionally a very wide struct
-	KeyKinds      []byte
-	Aliases       bool
-	Defaults      bool
-	Requiredness  bool // mix required/optional (otherwise all default-requiredness)
-	Recursive     bool
-	JSConv        bool
+	MaxStructs   int
+	MaxFields    int
+	MaxDepth     int
+	BigIDs       bool // allow ids up to 32767
+	ManyFields   bool // occasionally a very wide struct
+	KeyKinds     []byte
+	Aliases      bool
+	Defaults     bool
+	Requiredness bool // mix required/optional (otherwise all default-requiredness)
+	Recursive    bool
+	JSConv       bool
 	// JSConvScalars: api.js_conv only on scalar fields (the JSON->Thrift side of the mapping has no list form)
 	JSConvScalars bool
 	NoSet         bool
